@@ -12,7 +12,7 @@ HEADER_EXEMPT = {("block::ExtData", "solution"), ("block::ExtData", "signblock_w
 def _ev_list(body):
     out = []
     for e in events(body, is_encode_call):
-        out.append((show(e["args"][0]), show(e["args"][1]) if len(e["args"]) > 1 else None,
+        out.append((show(e["args"][0]), show(e["args"][1]).split("@")[0] if len(e["args"]) > 1 else None,
                     tuple(cond_desc(body, e["conds"])), e))
     return out
 
@@ -33,7 +33,7 @@ def _hash_result(c, rule, fn, wrapper):
     t = p.local(0)
     ok = (t[0] == "agg" and t[1] == wrapper and len(t[3]) == 1 and t[3][0][0] == "call"
           and t[3][0][1].endswith("as hashes::HashEngine>::finalize")
-          and show(t[3][0][2][0]) == ENGINE)
+          and show(t[3][0][2][0]).split("@")[0] == ENGINE)
     c.inst(rule, "returns %s(sha256d.finalize(engine))" % wrapper.split("::")[-1], ok,
            "return value is %s" % show(t), fn.where(), fn.path)
 
@@ -127,7 +127,7 @@ def run(c, prog, ctx):
     wit = [(r, cd) for (r, s, cd, _) in ev if (HW, "true") in cd]
     wit_recv = [r for r, cd in wit]
     ok = (len(wit) == 3 and wit_recv[0] == "1"
-          and wit_recv[1].endswith("next(arg1.input)).witness") and wit_recv[2].endswith("next(arg1.output)).witness"))
+          and wit_recv[1] == "elem(arg1.input).witness" and wit_recv[2] == "elem(arg1.output).witness")
     c.inst("R3.encode-witness-branch", "flag 1 and both witness sections only under has_witness", ok,
            "extracted %s" % wit_recv, enc.where(), enc.path)
     sinks = {s for (_, s, _, _) in ev}
@@ -221,7 +221,7 @@ def _clear_witness(c, prog, cw):
            set(touched) == want, "touched %s" % sorted(touched), cw.where(), cw.path)
     sol = touched.get(("block::ExtData::Proof", "solution"), [])
     wit = touched.get(("block::ExtData::Dynafed", "signblock_witness"), [])
-    ok_sol = any(k == "assign" and v == "script::Script::new()" for k, v in sol)
+    ok_sol = any(k == "assign" and v.split("@")[0] == "script::Script::new()" for k, v in sol)
     ok_wit = any(k == "mutarg" and v == "std::vec::Vec::<T, A>::clear" for k, v in wit)
     c.inst("R5.clear_witness-empties", "solution := Script::new(), signblock_witness.clear()", ok_sol and ok_wit,
            "operations %s" % {"solution": sol, "signblock_witness": wit}, cw.where(), cw.path)
